@@ -332,7 +332,11 @@ func checkC06() fw.Check {
 					cases = append(cases, fw.Case{ID: id, Bubble: true, Run: func(c *fw.Ctx) {
 						for k := 0; k < 40; k++ {
 							sc := scenario{tag: fmt.Sprintf("%s run %d", id, k), v: v, win: window{1, 255}, b: basesQuick[0],
-								spec:  func(s *drive.Spec) { s.Timeout = 20 * time.Millisecond; s.Delay = time.Millisecond; s.Port = uint16(33434 + k) },
+								spec: func(s *drive.Spec) {
+									s.Timeout = 20 * time.Millisecond
+									s.Delay = time.Millisecond
+									s.Port = uint16(33434 + k)
+								},
 								model: func(e *simEnv) *pathModel { return &pathModel{hops: map[int]*hopSpec{}} }}
 							if out := runScenario(c, sc); out != nil {
 								out.e.close()
